@@ -437,7 +437,10 @@ theorem hdrGet_hdrSet (h : Headers) (k k' : Bytes) (x : Bytes × Bytes) :
   unfold hdrSet
   by_cases hany : h.any (·.1 == k) = true
   · simp only [hany, if_true, hdrGet_map_replace]
-  · have hany' : h.any (·.1 == k) = false := by simpa using hany
+  · have hany' : h.any (·.1 == k) = false := by
+      cases hb : h.any (·.1 == k) with
+      | false => rfl
+      | true => exact absurd hb hany
     simp only [hany', Bool.false_eq_true, if_false, hdrGet_append_single]
     by_cases hkk : k = k'
     · subst hkk; simp [hdrGet_none_of_no_key h k hany']
